@@ -157,6 +157,31 @@ fn check_input(h: &History, nodes: &[usize], deviations: usize, t: &mut Tally) -
             }
         }
     }
+    // a store that cannot load one of the conflicted events (not received yet): still one result per collection
+    if k == 2 && conflicted {
+        let hidden: Option<String> = inp.sets[0].iter().find(|(key, id)| inp.sets[1].get(*key) != Some(*id)).map(|(_, id)| id.clone());
+        if let Some(hidden) = hidden {
+            let mut first: Option<Outcome> = None;
+            for p in permutations(2) {
+                let sets: Vec<SMap> = p.iter().map(|&i| inp.sets[i].clone()).collect();
+                let chains: Vec<BTreeSet<String>> = p.iter().map(|&i| inp.chains[i].clone()).collect();
+                t.transitions += 1;
+                match mc_stateres::spec_res::resolve_real_hiding(h.v, &h.store, &hidden, &sets, &chains) {
+                    Ok(o) => match &first {
+                        None => first = Some(o),
+                        Some(o0) if *o0 != o => {
+                            out.push((
+                                "argument-order/unknown-event".into(),
+                                format!("store without {hidden}: sets in order {o0:?}, swapped {o:?}"),
+                            ));
+                        }
+                        _ => {}
+                    },
+                    Err(p) => out.push(("panic/resolve-unknown-event".into(), p.text)),
+                }
+            }
+        }
+    }
     // (P) argument permutations: joint, and chains permuted independently
     for p in permutations(k) {
         for q in [p.clone(), ident.clone(), p.iter().rev().cloned().collect::<Vec<_>>()] {
@@ -201,8 +226,9 @@ fn check_input(h: &History, nodes: &[usize], deviations: usize, t: &mut Tally) -
                 chains: idx.iter().map(|&i| inp.chains[i].clone()).collect(),
             };
             let mut first: Option<(Vec<usize>, _)> = None;
-            for p in permutations(3) {
-                match run(&dup, &p, &p, &[], t) {
+            // the three distinct arrangements (the odd set last, in the middle, first), chains jointly and in place
+            for (p, q) in [vec![0usize, 1, 2], vec![0, 2, 1], vec![2, 0, 1]].into_iter().flat_map(|p| [(p.clone(), p.clone()), (p, vec![0, 1, 2])]) {
+                match run(&dup, &p, &q, &[], t) {
                     Ok((o, _)) => {
                         t.outcome("duplicated-fork", if o == base { "same as without the duplicate" } else { "differs from the two-set result" });
                         match &first {
